@@ -229,6 +229,13 @@ def order_part(check):
             for j in range(n):
                 if rng.random() < 0.3 and (not dag or rank[j] < rank[i]) and (i != j or not dag):
                     edges.append((i, j, rng.choice(POSITIONS)))
+        if rng.random() < 0.4:
+            # alias-heavy programs: about half of the referring items are aliases (one target each)
+            for i in range(n):
+                mine = [e for e in edges if e[0] == i]
+                if mine and rng.random() < 0.5:
+                    keep = rng.choice(mine)
+                    edges = [e for e in edges if e[0] != i] + [(i, keep[1], rng.choice(["alias-target", "alias-vec"]))]
         renamed = [i for i in range(n) if rng.random() < 0.1]
         f, names = build_program(rng, n, edges, renamed)
         g = Gen(rng)
